@@ -86,6 +86,7 @@ func init() {
 			// what a rejected message caused to be queued (an error reply) leaves with the same call and does not ride on
 			// the answer to a later genuine message: every return of the API functions drains the injection queue
 			a.c19Growth()
+			a.macKeyByteWipes("W.mac-wipe")
 		})
 }
 
